@@ -101,7 +101,7 @@ def run(ctx, crate):
                 kind = "directory listing"
             elif r0[0] == "elem" and T.contains(r0, rd.result):
                 kind = "listing entry"
-            elif T.is_call(r0, "Path::file_name") or T.is_call(r0, "OsStr::to_str"):
+            elif T.is_call(r0, "Path::file_name") or T.is_call(r0, "OsStr::to_str") or T.is_call(r0, "Path::to_str"):
                 inner = [x for x in T.subterms(r0) if T.is_call(x, "DirEntry::path")]
                 if inner:
                     kind = "entry name / UTF-8 conversion"
